@@ -37,6 +37,8 @@ type Muxer struct {
 	tagWriter TagWriter
 	closed    bool
 
+	packSequenceHeader bool // 是否已输出 metadata 和 sequence header(仅转换例程访问)
+
 	logger *xlog.Logger // 日志对象
 }
 
@@ -107,8 +109,6 @@ func (muxer *Muxer) process() {
 		muxer.recvQueue.Reset()
 	}()
 
-	var packSequenceHeader bool
-
 	for !muxer.closed {
 		f := muxer.recvQueue.Pop()
 		if f == nil {
@@ -118,26 +118,35 @@ func (muxer *Muxer) process() {
 			continue
 		}
 
-		if !packSequenceHeader{
-			muxer.muxMetadataTag()
-			muxer.vp.PacketizeSequenceHeader()
-			muxer.ap.PacketizeSequenceHeader()
-			packSequenceHeader = true
-		}
-		
-		frame := f.(*codec.Frame)
+		muxer.processFrame(f.(*codec.Frame))
+	}
+}
 
-		switch frame.MediaType {
-		case codec.MediaTypeVideo:
-			if err := muxer.vp.Packetize(frame); err != nil {
-				muxer.logger.Errorf("flvmuxer: muxVideoTag error - %s", err.Error())
-			}
-		case codec.MediaTypeAudio:
-			if err := muxer.ap.Packetize(frame); err != nil {
-				muxer.logger.Errorf("flvmuxer: muxAudioTag error - %s", err.Error())
-			}
-		default:
+// 处理单个帧；异常帧引发的 panic 只丢弃该帧，不能终止整个转换例程
+func (muxer *Muxer) processFrame(frame *codec.Frame) {
+	defer func() {
+		if r := recover(); r != nil {
+			muxer.logger.Errorf("flvmuxer: process frame panic；r = %v \n %s", r, debug.Stack())
 		}
+	}()
+
+	if !muxer.packSequenceHeader {
+		muxer.muxMetadataTag()
+		muxer.vp.PacketizeSequenceHeader()
+		muxer.ap.PacketizeSequenceHeader()
+		muxer.packSequenceHeader = true
+	}
+
+	switch frame.MediaType {
+	case codec.MediaTypeVideo:
+		if err := muxer.vp.Packetize(frame); err != nil {
+			muxer.logger.Errorf("flvmuxer: muxVideoTag error - %s", err.Error())
+		}
+	case codec.MediaTypeAudio:
+		if err := muxer.ap.Packetize(frame); err != nil {
+			muxer.logger.Errorf("flvmuxer: muxAudioTag error - %s", err.Error())
+		}
+	default:
 	}
 }
 
